@@ -7,11 +7,15 @@ package thriftproto
 
 // C15: decoding never writes into a shared status
 //@ func (*tBinaryProto).binaryUnpack
-//@   property C15
+//@   property C15 C12
 //@   requires msgOwnStatus(as(m, type(*socket.message)))
+//@   requires[no-pending-refusal] @C12 !ghost.appendFailed
+//@   ensures[refusal-propagated] @C12 result == nil ==> !ghost.appendFailed
 //@ func (*tBinaryProto).Unpack
-//@   property C15
+//@   property C15 C12
 //@   requires msgOwnStatus(as(m, type(*socket.message)))
+//@   requires[no-pending-refusal] @C12 !ghost.appendFailed
+//@   ensures[refusal-propagated] @C12 result == nil ==> !ghost.appendFailed
 //@ func (*tStructProto).structUnpack
 //@   property C15
 //@   requires msgOwnStatus(as(m, type(*socket.message)))
